@@ -73,32 +73,22 @@ Content(k, f, src) == [mocks |-> InFile(CMocks(k), f), src |-> src, schema |-> S
 ContractFS == [f \in ContractFiles |-> Content(f[1], f, CSrc(f[1]))]
 
 \* ------------------------------------------------------------------ worlds
-WithG(w, g) == [n |-> w.n, par |-> w.par, kind |-> w.kind, on |-> w.on, rec |-> w.rec, all |-> w.all, sn |-> w.sn,
-                excl |-> w.excl, root |-> w.root, g |-> g]
-Profiles == {[mode |-> m, layout |-> l, ents |-> e] :
-               m \in {"none", "same", "differ-valid", "differ-invalid"}, l \in {"perpkg", "periface"}, e \in {0, 2}}
-BaseWorlds(mx) ==
-  UNION {UNION {{InheritWorld(n, p, onset, rv, "U", Payload(pv, n, onset), xpl) :
-                   p \in Trees(n), rv \in [onset -> {"U", "T"}],
-                   pv \in IF Cardinality(onset) = 1 THEN {0, 2} ELSE {0},     \* 2: `all` only on odd packages (maybe nothing to do)
-                   xpl \in {[at |-> 0, v |-> 0, rv |-> 0], [at |-> CHOOSE a \in onset : \A b \in onset : a <= b, v |-> 1, rv |-> 0]}} :
-                 onset \in {s \in SUBSET (1..n) : s # {} /\ Cardinality(s) <= 3}} : n \in 2..mx}
-OrderWorlds == {WithG(w, g) : w \in BaseWorlds(MaxNodes), g \in Profiles}
+\* Family = "order" in Recursive.tla: small trees, up to three configured packages, recursion on / not written, one
+\* exclusion variant, times every generation profile (Profiles).  Order worlds have exactly one allowed settings
+\* source per package (the open corner of C07 does not occur); a world where it did would simply not be run.
+Decided == \A k \in 1..W.n : Cardinality(AllowedSrc(k)) = 1
 
 \* ------------------------------------------------------------------ code-shaped: RootApp.Run after the second Initialize
 NoColls == [f \in AllFiles |-> << >>]
-OInit == /\ W \in OrderWorlds
-         /\ \A k \in 1..W.n : Cardinality(AllowedSrc(k)) = 1
-         /\ pk = [k \in 1..W.n |-> IF W.on[k] THEN Own(k) ELSE Absent]
-         /\ pc = "loop1" /\ pass = 1 /\ pending = {k \in 1..W.n : W.on[k]} /\ recq = << >>
-         /\ opc = "init" /\ cpend = {} /\ colls = NoColls /\ fpend = {} /\ cache = << >> /\ fs = << >> /\ exit = 9
+OInit == /\ Init
+         /\ opc = "init" /\ cpend = {} /\ colls = << >> /\ fpend = {} /\ cache = << >> /\ fs = << >> /\ exit = 9
 
-Initialize == opc = "init" /\ pc # "done" /\ Next /\ UNCHANGED ovars
+Initialize == opc = "init" /\ pc # "done" /\ (Choosing \/ Decided) /\ Next /\ UNCHANGED ovars
 
 \* GetPackages + ParsePackages: the package list is built by ranging over the map
 StartRun == /\ opc = "init" /\ pc = "done"
-            /\ cpend' = Present /\ opc' = "collect"
-            /\ UNCHANGED <<W, pk, pc, pass, pending, recq, colls, fpend, cache, fs, exit>>
+            /\ cpend' = Present /\ opc' = "collect" /\ colls' = NoColls
+            /\ UNCHANGED <<W, pk, pc, pass, pending, recq, fpend, cache, fs, exit>>
 
 RECURSIVE AppendAll(_, _)
 AppendAll(c, ms) == IF ms = << >> THEN c
@@ -138,8 +128,8 @@ ONext == Initialize \/ StartRun \/ (\E p \in cpend : Collect(p)) \/ (\E f \in fp
 OSpec == OInit /\ [][ONext]_allvars
 
 \* ------------------------------------------------------------------ the property
-Deterministic == opc = "exit" => /\ exit = ContractExit
-                                 /\ exit = 0 => fs = ContractFS
+Deterministic == (opc = "exit" /\ ~Choosing) => (/\ exit = ContractExit
+                                                 /\ (exit = 0 => fs = ContractFS))
 InitializeOK == ImplRefinesContract
 OTypeOK == opc \in {"init", "collect", "files", "exit"} /\ exit \in {9, 0, 1}
 \* vacuity witnesses (must be violated): some run fails, some world has several output files
@@ -147,7 +137,7 @@ NeverFails == exit # 1
 NeverSeveralFiles == Cardinality(fpend) < 3
 
 \* ------------------------------------------------------------------ export (once per world, at its initial state)
-IsInitial == opc = "init" /\ pass = 1 /\ pc = "loop1" /\ recq = << >> /\ pending = {k \in 1..W.n : W.on[k]}
+IsInitial == opc = "init" /\ pass = 1 /\ pc = "loop1" /\ recq = << >> /\ pending = {k \in 1..W.n : W.on[k]} /\ Decided
 RECURSIVE SetToSeq(_)
 SetToSeq(S) == IF S = {} THEN << >> ELSE LET x == CHOOSE x \in S : TRUE IN <<x>> \o SetToSeq(S \ {x})
 OCaseRec == [W |-> W, expect |-> Expect, patterns |-> ExclPatterns,
